@@ -295,6 +295,8 @@ func TestRegressions(t *testing.T) {
 		{"F7", "reader", "n1-pat3-len4097", "C20", 1},
 		{"F7", "reader", "n1-pat4-len0", "C20", 0},
 		{"F13", "stream", "k2-l3,3-noctx", "C07", 0},
+		{"F14", "keepalive", "healthy-p5-t30-sp0-slowbig", "C17", 0},
+		{"F14", "keepalive", "healthy-p1-t3-sp1-slowbig", "C17", 0},
 	}
 	for _, c := range cases {
 		sc := Registry[c.scen]
